@@ -61,6 +61,14 @@ class Check(BaseCheck):
         env.load()
         e = hx.Env()
         G.install_refs(e.p)
+        # a second parser of the same process binds the same names to other values (and answers the same cells otherwise): the value of a
+        # tree is the value under the bindings of the parser that evaluates it
+        import hotxlfp
+        self.decoy = hotxlfp.Parser()
+        for name in G.VARS:
+            self.decoy.set_variable(name, 987654321)
+        self.decoy.on('callCellValue', lambda cell, setter: setter(-123456789))
+        self.decoy.parse('xa+A1')
         trace = probe.ReductionTrace()
         trace.start()
         try:
